@@ -1382,9 +1382,11 @@ def flat_nodes(fn, pred, depth=2, _seen=(), _anchor=None, _names=None):
     return out
 
 
-def reachable_under(fn, start, targets, atom_value):
+def reachable_under(fn, start, targets, atom_value, decided_only=False):
     """Can a block holding one of `targets` (nodes) be reached from `start` (None = function entry) when every two-way
-    branch whose deciding operand has a known truth value in the abstract state is followed along its feasible edge only?"""
+    branch whose deciding operand has a known truth value in the abstract state is followed along its feasible edge only?
+    decided_only=True: a branch the state does NOT decide is not followed at all - what is reached is reached because of
+    the state alone."""
     cfg = fn.cfg
     b0 = cfg.node_block(start) if start is not None else cfg.entry
     tb = {cfg.node_block(t) for t in targets} - {None}
@@ -1405,6 +1407,8 @@ def reachable_under(fn, start, targets, atom_value):
             v = eval3(atom, atom_value, fn) if is_node(atom) else None
             if v is not None:
                 st.append(succ[0] if (v != neg) else succ[1])
+                continue
+            if decided_only:
                 continue
         st.extend(x for x in succ if x is not None)
     return False
